@@ -85,7 +85,7 @@ def index_case(rng):
         names.append(nm)
         items = []
         if rng.random() < 0.6:
-            items.append(("k", _name(p, "k%d" % i), p.str("v%d" % i)))
+            items.append(("k", _name(p, "k%d" % i), rng.choice([lambda: p.str("v%d" % i), lambda: p.false(), lambda: p.num(0), lambda: p.str("")])()))
         if rng.random() < 0.3:
             items.append(("k", _name(p, "shared"), p.str("shared%d" % i)))
         ss.append(p.local([nm], [p.table(items)]))
@@ -109,7 +109,12 @@ def index_case(rng):
         if r < 0.35:
             ss.append(p.emit([p.str("get"), p.str(k), p.field(p.id("c0"), k), p.call(p.id("rawget"), [p.id("c0"), p.str(k)])]))
         elif r < 0.6:
-            ss.append(p.assign([p.field(p.id("c0"), k)], [p.str("w-" + k)]))
+            val = rng.choice([lambda: p.str("w-" + k), lambda: p.false(), lambda: p.nil(), lambda: p.num(0), lambda: p.true()])()
+            if rng.random() < 0.5:
+                ss.append(p.assign([p.field(p.id("c0"), k)], [val]))                    # constant string key
+            else:
+                ss.append(p.local(["kv"], [p.str(k)]))
+                ss.append(p.assign([p.index(p.id("c0"), p.id("kv"))], [val]))           # key in a register
             ss.append(p.emit([p.str("after-set"), p.str(k)] + [p.call(p.id("rawget"), [p.id(n), p.str(k)]) for n in names]))
         elif r < 0.75:
             ss.append(p.callstat(p.call(p.id("rawset"), [p.id("c0"), p.str(k), p.str("raw-" + k)])))
@@ -129,7 +134,9 @@ def call_case(pos, nargs, handler_kind):
                      p.if_([p.bin(">", p.id("cnt"), p.num(3))], [p.block([p.ret([p.nil()])])]),
                      p.ret([p.id("cnt"), p.str("r2")])])
     ss = [p.local(["cnt", "obj"], [p.num(0), p.table([])])]
-    if handler_kind == "function":
+    if handler_kind.startswith("builtin:"):
+        h = p.id(handler_kind.split(":")[1])          # a host function as __call handler (receives the object first)
+    elif handler_kind == "function":
         h = p.func(["self"], hbody, va=True, ud=True)
     elif handler_kind == "nonfunction":
         h = p.table([])
